@@ -54,3 +54,33 @@ PROPS["C11"] = {
         "design_ref": "DESIGN.md §4 C11",
     },
 }
+
+ENGINE_FLAGS = ["--no-default-features"]
+
+PROPS["C12"] = {
+    "level": "model_checking",
+    "kani": [
+        {"package": "boa_engine", "flags": ENGINE_FLAGS, "tags": ["model", "c12a", "c12b"]},
+        {"package": "boa_engine", "flags": ENGINE_FLAGS + ["--features", "jsvalue-enum"], "tags": ["model", "c12a"]},
+    ],
+    "assumptions": COMMON_ASSUME + [
+        "heap variants (object/string/symbol/bigint) are covered only at the pointer-tag level: no Gc allocation compiles under Kani 0.68",
+    ],
+    "outside_claim": [
+        "whole-program equivalence of the NaN-boxed and enum builds (only the primitive constructor/observer API is compared, against one model)",
+        "heap values beyond the tag/untag round trip of their 48-bit address",
+    ],
+    "trusted_base": ["integer-arithmetic reference model harness/core/engine/src/lib.rs.model.kani.rs"],
+    "manifest": {
+        "text": "Bounded model checking (no bound needed: loop-free code) of the real JsValue constructors/observers over ALL 2^32 "
+                "int32s, ALL 2^64 double bit patterns (so every NaN payload that coincides with a pointer/int tag is inside the "
+                "quantifier), all integer widths, booleans, null, undefined, and of the NaN-box bit layer (kind predicates "
+                "partition the raw patterns; 48-bit pointer tags round-trip; wider addresses panic). The same harness source "
+                "is verified against the NaN-boxed build and the jsvalue-enum build.",
+        "note": "Trusted: Kani/CBMC, the integer reference model. Outside: heap variants beyond address tagging (no Gc under "
+                "Kani), program-level equivalence of the two representations.",
+        "technique": "bounded model checking of the compiled Rust (Kani/CBMC, SAT) over the full 32/64-bit input domains, both feature configurations",
+        "design_ref": "DESIGN.md §4 C12",
+    },
+}
+
